@@ -14,7 +14,7 @@ RULE = ('enumerated: a rejection / crash / nothing at every position of every ch
         'arguments (unknown keyword, extra positional, undeclared signature parameter, Parameter outside the signature) x strict x mode x '
         'method x async.  Plus seeded structured programs: 1-4 named parameters (+-self as real methods, sync/async, +-defaults, keyword-only, '
         '*args; in 40 % of the programs some parameters carry a name of that pool), shuffled declarations (plain / EnvironmentVariableParameter set or unset / harness-defined ExternalParameter; default NoValue, '
-        'value, None, falsy; required or not; value_type in None,int,float,bool,str,list,dict; chains of 0-3 recording validators that map, '
+        'value, None, falsy; required or not; value_type in None,int,float,bool,str,list,dict (values incl. byte strings, valid and invalid UTF-8); chains of 0-3 recording validators that map, '
         'return None, return a falsy constant, reject or crash, ~30 % of them with a pre-set / delegated foreign parameter_name on their exception; '
         'duplicate and out-of-signature declarations as near misses), strict, '
         'ignore_input, calls with every prefix length, shuffled keywords, omissions, None, falsy values, surplus, a name passed twice, the '
